@@ -63,12 +63,20 @@ ICpde(r) == QMean([j \in DOMAIN r.inside |->
 IC(r) == IF r.ic.on = FALSE THEN QI(0) ELSE IF r.lkind = "ode" THEN ICode(r) ELSE ICpde(r)
 
 (* ---- normalisation: w * (L * mean_s u(x_s) - 1)^2, averaged over the batch times ---- *)
-MCIntegral(r, t, th) ==     \* L * mean over samples of the (scalar) solution
-    QMul(QI(r.norm.L), QMean([s \in DOMAIN r.norm.samples |-> QI(NetSol(r, t \o r.norm.samples[s], th)[1])]))
+\* with a parameter batch (C12): the stationary term pairs normalisation sample s with parameter row s (as many samples as rows);
+\* the non-stationary term integrates, at the time stamp of batch row j, with parameter row j
+SolMean(r, in, th) == LET sol == NetSol(r, in, th) IN QMean([c \in DOMAIN sol |-> QI(sol[c])])
+MCIntegral(r, t, th) ==     \* L * mean of the solution over the samples (and over its components when the solution slice keeps several:
+                            \* all four code paths - plain / separable, with / without time - take the mean of every entry)
+    QMul(QI(r.norm.L), QMean([s \in DOMAIN r.norm.samples |-> SolMean(r, t \o r.norm.samples[s], th)]))
+MCIntegralRows(r) ==
+    QMul(QI(r.norm.L), QMean([s \in DOMAIN r.norm.samples |-> SolMean(r, r.norm.samples[s], ParamsRow(r.th, r.ptab, s))]))
 NormAt(r, t, th) == QSq(QSub(MCIntegral(r, t, th), QI(1)))
 Norm(r) == IF r.norm.on = FALSE THEN QI(0)
-           ELSE IF r.lkind = "statio" THEN QMul(QI(r.w.norm[1]), NormAt(r, <<>>, r.th))
-           ELSE QMul(QI(r.w.norm[1]), QMean([j \in DOMAIN r.inside |-> NormAt(r, <<r.inside[j][1]>>, r.th)]))
+           ELSE IF r.lkind = "statio" THEN
+                (IF NRows(r.ptab) = 0 THEN QMul(QI(r.w.norm[1]), NormAt(r, <<>>, r.th))
+                 ELSE QMul(QI(r.w.norm[1]), QSq(QSub(MCIntegralRows(r), QI(1)))))
+           ELSE QMul(QI(r.w.norm[1]), QMean([j \in DOMAIN r.inside |-> NormAt(r, <<r.inside[j][1]>>, ParamsRow(r.th, r.ptab, j))]))
 
 (* ---- observations: row i with row i of every observed parameter ---- *)
 Obs(r) == IF r.obsd.on = FALSE THEN QI(0)
